@@ -14,6 +14,7 @@ from .c12 import diff_states, fitted_state
 import gemclus.gemini as G  # noqa: E402
 
 QUICK_SCALE = 3  # quick budgets below are multiplied by this (kept at about half a minute on 8 processes)
+THOROUGH_SCALE = 6  # thorough budgets below are multiplied by this (about ten minutes on 16 processes)
 
 RULE = ("metamorphic / differential runs with a common integer random_state: named kernel or metric with parameters == the "
         "same matrix passed as 'precomputed' == a callable returning it (exact equality of every fitted attribute and of "
